@@ -855,4 +855,68 @@ Qed.
 Lemma allclosed_count s : allclosed s -> live_count s = 0.
 Proof. intros H. unfold live_count. rewrite filter_allclosed; [reflexivity | exact H]. Qed.
 
+(* ---- the pool's own count ---------------------------------------------------------------------- *)
+Lemma get_refc s f : refc (fst (fst (get s f))) = refc s.
+Proof.
+  destruct (get_cases s f) as [(k & _ & _ & ->)|[(k & _ & _ & ->)|[(k & _ & _ & ->)|(_ & [(_ & ->)|(_ & ->)])]]]; reflexivity.
+Qed.
+
+Lemma step_refc s l :
+  refc (fst (step s l)) = (refc s + (if is_openpool l then 1 else 0) - (if is_closepool l then 1 else 0))%Z.
+Proof.
+  destruct l as [f| |t0 f| |m ok|m|m b|t]; cbn [step is_openpool is_closepool].
+  - pose proof (get_refc (bump s) f) as G. destruct (get (bump s) f) as [[s1 r] o]. cbn [fst] in G.
+    destruct r; cbn [fst refc set_waiting]; rewrite G; cbn; lia.
+  - destruct (refc (set_refc (bump s) (refc s + 1)) >? 1)%Z; cbn; lia.
+  - destruct (existsb (Nat.eqb t0) (spawned s)); [|cbn; lia].
+    set (s0 := set_spawned s (filter (fun x => negb (Nat.eqb x t0)) (spawned s))).
+    pose proof (get_refc s0 f) as G. destruct (get s0 f) as [[s1 r] o]. cbn [fst] in G.
+    destruct r; cbn [fst refc set_waiting]; rewrite G; cbn; lia.
+  - cbn [next set_refc refc]. destruct (next s); [destruct (refc s - 1 <=? 0)%Z|]; cbn; lia.
+  - destruct (nth_error (sinks s) m) as [[| | |]|]; try destruct ok; cbn; lia.
+  - destruct (nth_error (sinks s) m) as [[| | |]|]; cbn; lia.
+  - destruct (nth_error (sinks s) m) as [[| | |]|]; destruct b; cbn; lia.
+  - destruct (find_task t (waiting s)) as [tk|]; [|cbn; lia].
+    destruct (nth_error (sinks s) (t_sink tk)) as [[| | |]|]; cbn; try lia;
+      destruct (t_kind tk); try (destruct (next s)); cbn; lia.
+Qed.
+
+Lemma balance_cons l ls :
+  balance (l :: ls) = ((if is_openpool l then 1 else 0) - (if is_closepool l then 1 else 0) + balance ls)%Z.
+Proof. unfold balance. cbn [filter]. destruct (is_openpool l), (is_closepool l); cbn [length]; lia. Qed.
+
+Lemma run_refc s ls : refc (fst (run s ls)) = (refc s + balance ls)%Z.
+Proof.
+  revert s. induction ls as [|l ls IH]; intros s; [unfold balance; cbn; lia|].
+  rewrite run_cons. cbn [fst]. rewrite IH, step_refc, balance_cons. lia.
+Qed.
+
+(* the pool closes its connection only in Close(), and only when that call brings the count to 0 or below *)
+Lemma step_closeunder s l n :
+  In (CloseUnder n) (snd (step s l)) -> l = ClosePool /\ (refc s <= 1)%Z /\ next s = Some n.
+Proof.
+  destruct l as [f| |t0 f| |m ok|m|m b|t]; cbn [step].
+  - destruct (get_cases (bump s) f) as [(k & _ & _ & ->)|[(k & _ & _ & ->)|[(k & _ & _ & ->)|(_ & [(_ & ->)|(_ & ->)])]]];
+      cbn [snd app]; intros H; repeat (destruct H as [H|H]; try discriminate); contradiction.
+  - destruct (refc (set_refc (bump s) (refc s + 1)) >? 1)%Z; cbn; [intros [H|[]]; discriminate | intros []].
+  - destruct (existsb (Nat.eqb t0) (spawned s)); [|intros []].
+    destruct (get_cases (set_spawned s (filter (fun x => negb (Nat.eqb x t0)) (spawned s))) f)
+      as [(k & _ & _ & ->)|[(k & _ & _ & ->)|[(k & _ & _ & ->)|(_ & [(_ & ->)|(_ & ->)])]]];
+      cbn [snd app]; intros H; repeat (destruct H as [H|H]; try discriminate); contradiction.
+  - cbn [next set_refc refc]. destruct (next s) as [k|]; [|intros []].
+    destruct (Z.leb_spec (refc s - 1) 0) as [Hle|Hgt]; cbn; [|intros []].
+    intros [H|[]]. inversion H; subst. repeat split; auto; lia.
+  - unfold notify. destruct (nth_error (sinks s) m) as [[| | |]|]; try destruct ok; cbn; try tauto;
+      destruct (next s) as [j|]; try (destruct (Nat.eqb j m)); cbn;
+      intros H; repeat (destruct H as [H|H]; try discriminate); contradiction.
+  - unfold notify. destruct (nth_error (sinks s) m) as [[| | |]|]; cbn; try tauto;
+      destruct (next s) as [j|]; try (destruct (Nat.eqb j m)); cbn;
+      intros H; repeat (destruct H as [H|H]; try discriminate); contradiction.
+  - destruct (nth_error (sinks s) m) as [[| | |]|]; destruct b; cbn; intros [].
+  - destruct (find_task t (waiting s)) as [tk|]; [|intros []].
+    destruct (nth_error (sinks s) (t_sink tk)) as [[| | |]|]; cbn; try tauto;
+      destruct (t_kind tk); try (destruct (next s)); cbn;
+      intros H; repeat (destruct H as [H|H]; try discriminate); contradiction.
+Qed.
+
 End SingletonProofs.
